@@ -30,6 +30,9 @@ enum Mutation {
     Dangling,
     /// drop body line `k` (a later relationship may then reference an unknown node)
     DropLine(usize),
+    /// keep the header and the first `k` body lines, then one cut-off record: the failure is
+    /// planted exactly at record boundary `k`
+    CutAfterLine(usize),
 }
 
 fn render_mut(m: &Mutation) -> String {
@@ -41,6 +44,7 @@ fn render_mut(m: &Mutation) -> String {
         Mutation::FlipText(k, x) => format!("fliptext:{}:{}", k, x),
         Mutation::Dangling => "dangling".into(),
         Mutation::DropLine(k) => format!("dropline:{}", k),
+        Mutation::CutAfterLine(k) => format!("cutafter:{}", k),
     }
 }
 
@@ -54,6 +58,7 @@ fn parse_mut(s: &str) -> Option<Mutation> {
         ["fliptext", k, x] => Some(Mutation::FlipText(k.parse().ok()?, x.parse().ok()?)),
         ["dangling"] => Some(Mutation::Dangling),
         ["dropline", k] => Some(Mutation::DropLine(k.parse().ok()?)),
+        ["cutafter", k] => Some(Mutation::CutAfterLine(k.parse().ok()?)),
         _ => None,
     }
 }
@@ -106,6 +111,14 @@ fn apply_mutation(orig: &[u8], m: &Mutation) -> Vec<u8> {
                 .unwrap_or(424242);
             t.push_str(&format!("{{\"t\":\"e\",\"id\":999999,\"src\":{},\"tgt\":424243,\"type\":\"R\",\"props\":{{}}}}\n", first));
             gzip(t.as_bytes())
+        }
+        Mutation::CutAfterLine(k) => {
+            let t = gunzip(orig).unwrap_or_default();
+            let lines: Vec<&str> = t.lines().collect();
+            let keep = (1 + k).min(lines.len());
+            let mut out = lines[..keep].join("\n");
+            out.push_str("\n{\"t\":\"n\",\"id\":");
+            gzip(out.as_bytes())
         }
         Mutation::DropLine(k) => {
             let t = gunzip(orig).unwrap_or_default();
@@ -216,6 +229,12 @@ struct Outcome {
     skipped: Option<&'static str>,
     feat: Features,
     diff: String,
+    /// the store's next node id re-uses a freed id below an existing node
+    reuses_low_id: bool,
+    /// Err, but the verbatim dump (row/column placement, incoming adjacency, counters) differs
+    raw_changed: bool,
+    /// incoming/outgoing adjacency or the counters disagree after the import
+    inconsistent: bool,
 }
 
 const NAMES: &[&str] = &["x", "X ", " y", "Zed", "z", "q"];
@@ -269,6 +288,157 @@ fn gen_dedup_program(r: &mut Rng, n_nodes: usize, n_edges: usize) -> Vec<Op> {
     ops
 }
 
+const HOLE_NAMES: &[&str] = &["alpha", "Beta", "gamma", "Delta", "eps", "Zeta", "eta", "Theta", "iota", "Kappa", "lam", "Mu"];
+
+fn name_variant(r: &mut Rng, s: &str) -> String {
+    match r.usize(5) {
+        0 => s.to_uppercase(),
+        1 => format!(" {} ", s),
+        2 => format!("{}\t", s.to_lowercase()),
+        _ => s.to_string(),
+    }
+}
+
+fn hole_node(r: &mut Rng, label: &str, name: &str) -> Op {
+    let mut labels = vec![label.to_string()];
+    if r.chance(1, 4) {
+        labels.push("X".into());
+    }
+    let mut props: Vec<(String, PV)> = vec![("name".into(), PV::String(name.to_string()))];
+    if r.chance(1, 3) {
+        props.push(("code".into(), PV::Integer(r.range(1, 50))));
+    }
+    for (k, v) in snap::ops::gen_props(r, 2, false) {
+        if k != "name" && k != "code" && !props.iter().any(|(k2, _)| *k2 == k) {
+            props.push((k, v));
+        }
+    }
+    props.sort_by(|a, b| a.0.as_bytes().cmp(b.0.as_bytes()));
+    Op::Node { method: r.pick(&["api", "api", "stub", "row"]).to_string(), labels, props }
+}
+
+fn rand_edge(r: &mut Rng, src: usize, tgt: usize) -> Op {
+    let props = if r.chance(1, 3) { snap::ops::gen_props(r, 2, false) } else { vec![] };
+    Op::Edge { method: r.pick(&["full", "stub"]).to_string(), src, tgt, ty: r.pick(&["R", "KNOWS"]).to_string(), props }
+}
+
+/// A pre-populated store with a create / delete / re-create history: freed node ids at the low,
+/// middle or high end (or several), ids re-used by later nodes, relationships deleted along
+/// with their nodes (freed relationship ids).  Every live node has a unique (label, name).
+/// Returns the program and the live nodes as (label, name).
+fn gen_hole_pre(r: &mut Rng) -> (Vec<Op>, Vec<(String, String)>) {
+    let k = 3 + r.usize(4);
+    let mut ops = vec![];
+    let mut meta: Vec<Option<(String, String)>> = vec![];
+    let mut next_name = 0usize;
+    let mut mk = |r: &mut Rng, ops: &mut Vec<Op>, meta: &mut Vec<Option<(String, String)>>| {
+        let label = r.pick(&["A", "B", "C"]).to_string();
+        let name = name_variant(r, HOLE_NAMES[next_name % HOLE_NAMES.len()]);
+        next_name += 1;
+        ops.push(hole_node(r, &label, &name));
+        meta.push(Some((label, name)));
+    };
+    for _ in 0..k {
+        mk(r, &mut ops, &mut meta);
+    }
+    for _ in 0..r.usize(4) {
+        let (a, b) = (r.usize(k), r.usize(k));
+        ops.push(rand_edge(r, a, b));
+    }
+    let pattern = r.usize(8);
+    let dels: Vec<usize> = match pattern {
+        0 => vec![],
+        1 => vec![0],
+        2 => vec![k / 2],
+        3 => vec![k - 1],
+        4 => vec![0, 1 + r.usize(k - 1)],
+        5 => vec![0],
+        6 => vec![0, k - 1],
+        _ => vec![r.usize(k), r.usize(k)],
+    };
+    for d in &dels {
+        if meta[*d].is_some() {
+            ops.push(Op::DelNode(*d));
+            meta[*d] = None;
+        }
+    }
+    // re-creations: the new node takes a freed id
+    let recreate = match pattern {
+        5 => 1,
+        6 => 1,
+        7 => r.usize(3),
+        _ => 0,
+    };
+    for _ in 0..recreate {
+        mk(r, &mut ops, &mut meta);
+    }
+    let live: Vec<usize> = (0..meta.len()).filter(|i| meta[*i].is_some()).collect();
+    if !live.is_empty() {
+        for _ in 0..r.usize(3) {
+            let (a, b) = (*r.pick(&live), *r.pick(&live));
+            ops.push(rand_edge(r, a, b));
+        }
+    }
+    if r.chance(1, 3) {
+        ops.push(Op::Compact);
+    }
+    (ops, meta.into_iter().flatten().collect())
+}
+
+/// A snapshot source whose records interleave nodes that merge into a live pre-store node
+/// (same label and dedup value up to normalisation, with extra properties / labels), new nodes,
+/// and duplicates of an earlier record — in a random order — and relationships between any of
+/// them (merged/merged, merged/new, new/new, loops).
+fn gen_interleaved_snap(r: &mut Rng, live: &[(String, String)]) -> Vec<Op> {
+    let n = 2 + r.usize(5);
+    let mut ops = vec![];
+    let mut made: Vec<(String, String)> = vec![];
+    let force_new_first = r.chance(1, 2);
+    for i in 0..n {
+        let c = r.usize(10);
+        let kind = if i == 0 && force_new_first {
+            1
+        } else if i == 1 && force_new_first && !live.is_empty() {
+            0
+        } else if c < 5 && !live.is_empty() {
+            0
+        } else if c < 9 || made.is_empty() {
+            1
+        } else {
+            2
+        };
+        let (label, name) = match kind {
+            0 => {
+                let (l, nm) = r.pick(live).clone();
+                (l, name_variant(r, nm.trim()))
+            }
+            1 => (r.pick(&["A", "B", "C", "City"]).to_string(), format!("new{}", i)),
+            _ => r.pick(&made).clone(),
+        };
+        let mut labels = vec![label.clone()];
+        if r.chance(1, 3) {
+            labels.push(r.pick(&["D", "Member", "X"]).to_string());
+        }
+        let mut props: Vec<(String, PV)> = vec![];
+        if !(kind == 1 && r.chance(1, 6)) {
+            props.push(("name".into(), PV::String(name.clone())));
+        }
+        for (k, v) in snap::ops::gen_props(r, 3, false) {
+            if k != "name" && !props.iter().any(|(k2, _)| *k2 == k) {
+                props.push((k, v));
+            }
+        }
+        props.sort_by(|a, b| a.0.as_bytes().cmp(b.0.as_bytes()));
+        ops.push(Op::Node { method: r.pick(&["api", "api", "stub", "row"]).to_string(), labels, props });
+        made.push((label, name));
+    }
+    for _ in 0..1 + r.usize(5) {
+        let (a, b) = (r.usize(n), r.usize(n));
+        ops.push(rand_edge(r, a, b));
+    }
+    ops
+}
+
 /// pre-store in which two nodes of one label share a dedup value (which of them the real
 /// index keeps depends on hash iteration order), or a dedup value outside the modelled
 /// normalisation (non-ASCII string)
@@ -317,6 +487,9 @@ fn run_case(c: &Case) -> Outcome {
         skipped: Some(why),
         feat: Features::default(),
         diff: String::new(),
+        reuses_low_id: false,
+        raw_changed: false,
+        inconsistent: false,
     };
     let r = catch_unwind(AssertUnwindSafe(|| {
         let snap_b = build(&c.snap);
@@ -326,14 +499,23 @@ fn run_case(c: &Case) -> Outcome {
         let bytes = apply_mutation(&bytes, &c.mutation);
         let Some(dec) = decode_like_importer(&bytes) else { return mk_skip("format-version-1") };
         let mut pre_b = build(&c.pre);
-        let pre = dump_store(&pre_b.store);
+        // The ids the store will hand out next, probed on an identical copy: the model names
+        // nodes by handle (creation order) while the real store re-uses freed ids, so a node
+        // the import creates may get an id *below* older nodes.
+        let alloc: Vec<u64> = {
+            let mut probe = build(&c.pre);
+            (0..dec.ids.len() + 1).map(|_| probe.store.create_node_stub("Probe").as_u64()).collect()
+        };
+        let pre = dump_store_ordered(&pre_b.store, &alloc);
         if let Some(why) = ambiguous_or_unmodelled(&pre, &snap_dump, &c.keys) {
             return mk_skip(why);
         }
+        let max_pre_id = pre.rank.keys().copied().max().unwrap_or(0);
+        let reuses_low_id = alloc.first().map_or(false, |a| *a < max_pre_id);
         // a snapshot in which one id occurs twice after a corruption is still inside the model
         let key_refs: Vec<&str> = c.keys.iter().map(|s| s.as_str()).collect();
         let res = import_tenant_with_dedup(&mut pre_b.store, &bytes[..], &key_refs);
-        let post = dump_store(&pre_b.store);
+        let post = dump_store_ordered(&pre_b.store, &alloc);
         let (ok, real, err) = match res {
             Ok(st) => (
                 true,
@@ -358,6 +540,9 @@ fn run_case(c: &Case) -> Outcome {
             skipped: None,
             feat,
             diff,
+            reuses_low_id,
+            raw_changed: !ok && (pre.text != post.text || pre.aux != post.aux),
+            inconsistent: !post.consistent,
         }
     }));
     match r {
